@@ -137,7 +137,7 @@ def run_verus_unit(unit, workdir, tier, seed, want_canaries=True):
     runs = []
     pool = ThreadPoolExecutor(max_workers=2)
     canary_future = None
-    if want_canaries and any(True for _ in unit.fns()):
+    if want_canaries and (any(True for _ in unit.fns()) or "//@@CANARY" in (unit.post or "")):
         prepared = prepare_canaries(unit, workdir)
         canary_future = pool.submit(verus.run_verus, prepared[1], None, None, 50, 8)
     rl = 10 if tier == "quick" else 40
@@ -268,6 +268,19 @@ def prepare_canaries(unit, workdir):
                 expect.append(tag)
         groups.append((header, nf))
     cunit.groups = groups
+    # reachability points inside the unit's own lemmas (post text): one module copy per //@@CANARY marker
+    markers = [m.start() for m in re.finditer(r"//@@CANARY", unit.post or "")]
+    post = ""
+    for i, _ in enumerate(markers):
+        k = [0]
+        def repl(mm, i=i, k=k):
+            k[0] += 1
+            return ("assert(false); //@@hint:canary:post:%d" % i) if k[0] - 1 == i else ""
+        body = re.sub(r"//@@CANARY", repl, unit.post)
+        body = re.sub(r"//@@clause:\S+", "", body)
+        post += "pub mod post_canary_%d { use super::*;\n%s\n}\n" % (i, body)
+        expect.append("canary:post:%d" % i)
+    cunit.post = post
     try:
         g = gen.build_unit(REPO, cunit, VERIF)
     except gen.GenError as e:
